@@ -347,9 +347,6 @@ def normalize_url(
             )
         ]
 
-        if sort_query:
-            qsl = sorted(qsl, key=qsl_sort_key)
-
     # Dropping fragment if it's not routing
     if fragment and strip_fragment:
         if strip_fragment is True or not should_strip_fragment(fragment):
@@ -406,6 +403,11 @@ def normalize_url(
         qsl = safely_quote_qsl(qsl)
     else:
         qsl = safely_unquote_qsl(qsl)
+
+    # NOTE: sorting comes last, else the order would depend on how the items
+    # happened to be escaped
+    if sort_query:
+        qsl = sorted(qsl, key=qsl_sort_key)
 
     query = safe_serialize_qsl(qsl)
 
